@@ -116,6 +116,7 @@ def one(name, props, edits, diff, tier, shards, all_props):
 def main():
     args = sys.argv[1:]
     tier, jobs, all_props = "quick", 4, False
+    refactors = False
     pats = []
     while args:
         a = args.pop(0)
@@ -125,6 +126,8 @@ def main():
             jobs = int(args.pop(0))
         elif a == "--all-props":
             all_props = True
+        elif a == "--refactors":
+            refactors = True
         else:
             pats.append(a)
     work = []
@@ -142,6 +145,19 @@ def main():
                 if c["rc"] == 1:
                     print("    %s: %s" % (p, ", ".join(c["signatures"][:4])))
         return 0
+    if refactors:
+        bad = 0
+        for name, (props, edits) in mutants.REFACTORS.items():
+            if pats and not any(p in name for p in pats):
+                continue
+            r = one(name, props, edits, None, tier, 16, False)
+            alarms = [p for p, c in r.get("checks", {}).items() if c["rc"] == 1]
+            other = [(p, c["rc"]) for p, c in r.get("checks", {}).items() if c["rc"] not in (0, 1)]
+            print("%-10s %-48s baseline: %s  alarms: %s  non-verdicts: %s" % ("SILENT" if not alarms and r.get("checks") else "ALARM/ERR", name, r.get("baseline") or r.get("detail"), alarms, other))
+            for p in alarms:
+                print("    %s: %s" % (p, r["checks"][p]["signatures"][:3]))
+            bad += len(alarms)
+        return 1 if bad else 0
     for name, (props, edits) in mutants.M.items():
         work.append((name, props, edits, None))
     owners = json.load(open(os.path.join(HERE, "revert_owners.json"))) if os.path.exists(os.path.join(HERE, "revert_owners.json")) else {}
